@@ -330,6 +330,10 @@ func (sp *specParser) unary() SExpr {
 			if sp.isOp("::") {
 				break
 			}
+			if sp.isOp(",") { // another group with its own type: forall vm VM, i Iface, k int :: ...
+				sp.next()
+				continue
+			}
 			sp.fail("quantifier: expected '::'")
 		}
 		sp.expect("::")
